@@ -51,7 +51,10 @@ Record facts := {
   plain_names : list string;            (* the other names in self.data: None True False r Type *)
   whitelist : list (list string);       (* WHITELIST entries split at '.' *)
   guard_by_identity : bool;             (* the Call guard tests the evaluated callee (true) or the resolved name (false) *)
-  helper_names : list string            (* helpers that getattr(r, <user string>): field_regex field_equals field_contains *)
+  helper_names : list string;           (* helpers that read fields named by a user string: field_regex field_equals field_contains *)
+  helpers_refuse_dunder : bool          (* they read through _field_value, which refuses a double-underscore name with
+                                           InvalidOperation before touching the record (true), or getattr(r, <user string>)
+                                           directly (false, the code before fix cdcae2a) *)
 }.
 
 Section Eval.
@@ -84,6 +87,9 @@ Definition mem (s : string) (l : list string) : bool := existsb (String.eqb s) l
 Definition ns := list (string * obj).
 Fixpoint ns_get (d : ns) (k : string) : option obj :=
   match d with [] => None | (k', v) :: t => if String.eqb k k' then Some v else ns_get t k end.
+(* generator variables go out of scope with their generator (fix 4e3ad9e): self.data.pop(name, None) *)
+Definition ns_del (d : ns) (names : list string) : ns :=
+  filter (fun kv => negb (existsb (String.eqb (fst kv)) names)) d.
 Definition ns0 : ns :=
   map (fun n => (n, OFun n)) (exposed_callables F) ++
   map (fun n => (n, if String.eqb n "r" then ORec else OPlain n)) (plain_names F).
@@ -141,10 +147,23 @@ Fixpoint eval_list (ev : st -> node -> res * st) (s : st) (l : list node) : opti
   end.
 
 (* what a whitelisted helper does to the record with its field-name argument *)
-Definition helper_events (f : obj) (args : list obj) : list event :=
+(* the names read before the first double-underscore name, and whether there is one *)
+Fixpoint until_dunder (l : list string) : list string * bool :=
+  match l with
+  | [] => ([], false)
+  | n :: t => if starts_dunder n then ([], true) else let (a, b) := until_dunder t in (n :: a, b)
+  end.
+
+(* the reads, and whether the helper stops with InvalidOperation at a double-underscore name *)
+Definition helper_events (f : obj) (args : list obj) : list event * bool :=
   match f, args with
-  | OFun n, _ :: fields :: _ => if mem n (helper_names F) then map EvHelperGetattr (helper_fields fields) else []
-  | _, _ => []
+  | OFun n, _ :: fields :: _ =>
+      if mem n (helper_names F) then
+        if helpers_refuse_dunder F
+        then let (ok, hit) := until_dunder (helper_fields fields) in (map EvHelperGetattr ok, hit)
+        else (map EvHelperGetattr (helper_fields fields), false)
+      else ([], false)
+  | _, _ => ([], false)
   end.
 
 (* ---- consumption of a generator expression by any()/all(), parametrised by the evaluator ---- *)
@@ -198,21 +217,30 @@ Fixpoint level (elt : node) (stop_on : obj -> bool) (gens : list (string * node 
 
 (* iterating a generator expression object until [stop_on] holds for a yielded value: first the "overwrites existing
    variable" test of generator_expr, then the nested loops *)
-Definition consume (elt : node) (gens : list (string * node * list node)) (stop_on : obj -> bool) (s0 : st)
+Definition gen_vars (gens : list (string * node * list node)) : list string := map (fun g => fst (fst g)) gens.
+
+(* [keep]: the consumer keeps the generator object alive after it stopped early (the comparison chain of `in`); any()/all()
+   drop it when they return.  An exhausted generator has run its `finally` and removed its variables in any case. *)
+Definition consume (elt : node) (gens : list (string * node * list node)) (stop_on : obj -> bool) (keep : bool) (s0 : st)
   : option err * bool * st :=
   if existsb (fun g => match ns_get (fst s0) (fst (fst g)) with Some _ => true | None => false end) gens
   then (Some InvalidOperation, true, s0)
-  else level elt stop_on gens s0.
+  else match level elt stop_on gens s0 with
+       | (None, stopped, s1) =>
+           if stopped && keep then (None, stopped, s1) else (None, stopped, (ns_del (fst s1) (gen_vars gens), snd s1))
+       | r => r
+       end.
 
 (* callee( args, kwargs ): the call event, what a field_* helper reads, and -- when the callee is any/all over a
    generator expression -- the lazy consumption of that generator *)
 Definition do_call (args : list node) (c : obj) (vs : list obj) (nk : nat) (s : st) : res * st :=
-  let s0 : st := (fst s, snd s ++ [EvCall c (List.length vs + nk)] ++ helper_events c vs) in
+  let s0 : st := (fst s, snd s ++ [EvCall c (List.length vs + nk)] ++ fst (helper_events c vs)) in
+  if snd (helper_events c vs) then (Err InvalidOperation, s0) else
   match c, args with
   | OFun cname, [NGen elt gens] =>
       if String.eqb cname "any" || String.eqb cname "all" then
         let stop_on (v : obj) : bool := if String.eqb cname "any" then truthy v else negb (truthy v) in
-        match consume elt gens stop_on s0 with
+        match consume elt gens stop_on false s0 with
         | (Some e, _, s1) => (Err e, s1)
         | (None, _, s1) => (Ok (OCall c vs), s1)
         end
@@ -253,18 +281,21 @@ Fixpoint eval (fuel : nat) (s : st) (n : node) {struct fuel} : res * st :=
         | (None, None, s1) => (Err TypeErr, s1)
         end
     | NBinOp known l r =>
-        match ev s l with
-        | (Ok a, s1) =>
-            match ev s1 r with
-            | (Ok b, s2) =>
-                match a, b with
-                | OMissing, _ | _, OMissing => (Ok (OConst false), s2)
-                | _, _ => if known then (Ok (OOp [a; b]), emit s2 (EvOp [a; b])) else (Err KeyErr, s2)
-                end
-            | r' => r'
-            end
-        | r' => r'
-        end
+        (* AST_OPERATORS[type(node.op)] is looked up before the operands are evaluated (fix da067e7) *)
+        if known then
+          match ev s l with
+          | (Ok a, s1) =>
+              match ev s1 r with
+              | (Ok b, s2) =>
+                  match a, b with
+                  | OMissing, _ | _, OMissing => (Ok (OConst false), s2)
+                  | _, _ => (Ok (OOp [a; b]), emit s2 (EvOp [a; b]))
+                  end
+              | r' => r'
+              end
+          | r' => r'
+          end
+        else (Err KeyErr, s)
     | NUnary known o =>
         if known then
           match ev s o with
@@ -275,9 +306,11 @@ Fixpoint eval (fuel : nat) (s : st) (n : node) {struct fuel} : res * st :=
     | NCompare lft comps =>
         match ev s lft with
         | (Ok a, s1) =>
-            (fix chain (a : obj) (s : st) (cs : list (bool * node)) (last : obj) : res * st :=
+            (* [pend]: variables of generators this chain consumed that stopped early; the generator objects stay
+               referenced by the chain's operands until the comparison returns, then their variables go *)
+            (fix chain (a : obj) (s : st) (cs : list (bool * node)) (last : obj) (pend : list string) : res * st :=
                match cs with
-               | [] => (Ok last, s)
+               | [] => (Ok last, (ns_del (fst s) pend, snd s))
                | (is_in, c) :: cs' =>
                    match ev s c with
                    | (Ok b, s2) =>
@@ -285,18 +318,23 @@ Fixpoint eval (fuel : nat) (s : st) (n : node) {struct fuel} : res * st :=
                           yielded value with a, until one compares equal *)
                        match (match is_in, c, a with
                               | true, NGen elt gens, OMissing => (None, false, s2)
-                              | true, NGen elt gens, _ => consume ev elt gens (fun v => truthy (OOp [v; a])) s2
+                              | true, NGen elt gens, _ => consume ev elt gens (fun v => truthy (OOp [v; a])) true s2
                               | _, _, _ => (None, false, s2)
                               end) with
-                       | (Some e, _, s2') => (Err e, s2')
-                       | (None, _, s2') =>
+                       | (Some e, _, s2') => (Err e, (ns_del (fst s2') pend, snd s2'))
+                       | (None, stopped, s2') =>
+                           let pend' := match is_in, c, a with
+                                        | true, NGen _ _, OMissing => pend
+                                        | true, NGen _ gens, _ => if stopped then gen_vars gens ++ pend else pend
+                                        | _, _, _ => pend
+                                        end in
                            let r := OOp [a; b] in
                            let s3 := emit s2' (EvOp [a; b]) in
-                           if truthy r then chain b s3 cs' r else (Ok r, s3)
+                           if truthy r then chain b s3 cs' r pend' else (Ok r, (ns_del (fst s3) pend', snd s3))
                        end
-                   | r' => r'
+                   | (r', s2) => (r', (ns_del (fst s2) pend, snd s2))
                    end
-               end) a s1 comps (OConst true)
+               end) a s1 comps (OConst true) []
         | r' => r'
         end
     | NCall fn args kwargs =>
